@@ -77,10 +77,10 @@ PROPS = {
         drive_timeout=3000,
     ),
     'C17': dict(
-        drivers=[dict(driver='peermgr', monitors=['MON17']), dict(driver='peerconc', monitors=['MON17C']),
+        drivers=[dict(driver='peermgr', monitors=['MON17']), dict(driver='peerconc', monitors=['MON17C']), dict(driver='peerrace', monitors=['MON17R'], mismatch=None),
                  dict(driver='mq16', cmd='d_mq16', monitors=['MON17F']), dict(driver='msgqueue', monitors=['MON17F'])],
         proof_files=['PeerMgrProofs.v', 'PeerMgrConcProofs.v', 'PeerMgrMonitor.v', 'MsgQueueFifo.v', 'MsgQueueContent.v'], props=['C17', 'C17fifo'],
-        level_text="Invariant theorems over all label sequences (Connected, Disconnected, GetProcess, queue self-shutdown, late queue exit with its onShutdown callback) of the PeerManager model: at most one live queue per peer (C17_one_live), the last disconnect leaves no live queue and no table entry (C17_last_disconnect), every send is handed the table's queue (C17_get_process); the same with concurrent senders: GetProcess is modelled as its read-locked lookup plus its write-locked getOrCreate, a group of k concurrent calls (optionally racing one Connected/Disconnected/late-exit call) is a run of those labels, so one-live holds in every state groups can reach (C17_conc_one_live) and all concurrent senders are handed the same queue (C17_conc_same_process). C17_monitor / C17_conc_monitor: the executable monitors MON17 and MON17C accept the model's own trace of every label sequence (every group script the harness can produce), so they demand nothing the model does not satisfy. The model is run against the real peermanager.PeerManager with a scripted process factory each run; the one-live/table monitor is evaluated on the implementation's snapshots; C17_fifo_wire: over the message-queue model of C15/C16, for every history (transactions, network outcomes, retries, shutdowns, select choices) the messages whose send succeeds reach the wire in strictly increasing topic order = the order their builders were queued (that model is tied to the real MessageQueue by the C15/C16 drivers). C17_fifo_content: for every history, each sent message carries, per request, exactly the entries that request's transactions queued into it, in order, and an entry queued before another but into a later message never leaves at all (it was scrubbed): nothing overtakes. The two message-queue drivers (real MessageQueue + Allocator + ResponseAssembler, scripted network, backlogs of two or more pending builders around the 512 KiB threshold) evaluate the executable order monitor MON17F on the implementation's wire. A further driver forces groups of 1-4 concurrent GetProcess callers into the all-lookups-first interleaving on the real code by holding the table lock (verif hook) until every caller is parked on it.",
+        level_text="Invariant theorems over all label sequences (Connected, Disconnected, GetProcess, queue self-shutdown, late queue exit with its onShutdown callback) of the PeerManager model: at most one live queue per peer (C17_one_live), the last disconnect leaves no live queue and no table entry (C17_last_disconnect), every send is handed the table's queue (C17_get_process); the same with concurrent senders: GetProcess is modelled as its read-locked lookup plus its write-locked getOrCreate, a group of k concurrent calls (optionally racing one Connected/Disconnected/late-exit call) is a run of those labels, so one-live holds in every state groups can reach (C17_conc_one_live) and all concurrent senders are handed the same queue (C17_conc_same_process). C17_monitor / C17_conc_monitor: the executable monitors MON17 and MON17C accept the model's own trace of every label sequence (every group script the harness can produce), so they demand nothing the model does not satisfy. The model is run against the real peermanager.PeerManager with a scripted process factory each run; the one-live/table monitor is evaluated on the implementation's snapshots; C17_fifo_wire: over the message-queue model of C15/C16, for every history (transactions, network outcomes, retries, shutdowns, select choices) the messages whose send succeeds reach the wire in strictly increasing topic order = the order their builders were queued (that model is tied to the real MessageQueue by the C15/C16 drivers). C17_fifo_content: for every history, each sent message carries, per request, exactly the entries that request's transactions queued into it, in order, and an entry queued before another but into a later message never leaves at all (it was scrubbed): nothing overtakes. The two message-queue drivers (real MessageQueue + Allocator + ResponseAssembler, scripted network, backlogs of two or more pending builders around the 512 KiB threshold) evaluate the executable order monitor MON17F on the implementation's wire. Driver peerrace queues a late exit callback, a Disconnected and a Connected (or a send) of one peer on the held table lock in each of the six orders and releases them together (monitor only: every order is legal). A further driver forces groups of 1-4 concurrent GetProcess callers into the all-lookups-first interleaving on the real code by holding the table lock (verif hook) until every caller is parked on it.",
         level_note="FIFO is proved over the message-queue model at topic and at content granularity; the executable order monitor mon17 (per request the wire entries continue through the queue log in order, every entry of a message was queued after every entry of earlier messages, every present link has its block in the same message) is a decision procedure evaluated on implementation histories under the drivers' guarantee that one request never queues the same link twice; that it accepts every model history is not a theorem (it is tied to the model through the wire comparison). Disconnected is one atomic step in the model although the Go code calls Shutdown() on the removed process just after releasing the table lock (two adjacent statements, no blocking call in between).",
         trusted=["scripted process factory stands in for messagequeue.MessageQueue's life cycle (Startup, Shutdown, exit callback)"],
         assumptions=["Disconnected's table removal and the following Shutdown() call are treated as one step"],
